@@ -1,6 +1,6 @@
 (* Case runner for C14: str::split_whitespace as modelled. *)
-From Coq Require Import List String Bool.
-From RashV Require Import Sexp Exec.
+From Coq Require Import List String Bool NArith.
+From RashV Require Import Sexp Exec Become.
 Import ListNotations.
 Open Scope string_scope.
 
@@ -8,5 +8,33 @@ Open Scope string_scope.
 Definition run_splitws (e : sexp) : option sexp :=
   match e with
   | SList [Atom "splitws"; s] => option_map (fun s => SList (map bytes_atom (split_ws s))) (atom_bytes s)
+  | _ => None
+  end.
+
+(* (become (passwd (xNAME UID GID)...) (cur UID GID) (task BECOME xUSER ISCOMMAND TRANSFER))
+   -> (PATH (module UID GID | none) (main UID GID)) *)
+Definition dec_user (e : sexp) : option user :=
+  match e with
+  | SList [n; u; g] => match atom_bytes n, atom_N u, atom_N g with
+                       | Some n, Some u, Some g => Some {| u_name := n; u_uid := u; u_gid := g |}
+                       | _, _, _ => None end
+  | _ => None
+  end.
+Definition show_creds (c : creds) : list sexp := [show_N (c_uid c); show_N (c_gid c)].
+Definition run_become (e : sexp) : option sexp :=
+  match e with
+  | SList [Atom "become"; SList (Atom "passwd" :: us); SList [Atom "cur"; cu; cg]; SList [Atom "task"; b; u; ic; tp]] =>
+      match map_opt dec_user us, atom_N cu, atom_N cg, atom_bool b, atom_bytes u, atom_bool ic, atom_bool tp with
+      | Some db, Some cu, Some cg, Some b, Some u, Some ic, Some tp =>
+          let cur := {| c_uid := cu; c_gid := cg |} in
+          let p := {| b_become := b; b_user := u; b_is_command := ic; b_transfer_pid := tp |} in
+          Some (SList [Atom (match path_of db cur p with
+                             | InProcess => "in-process" | ForkedChild => "forked-child"
+                             | DropThenExec => "drop-then-exec" | UserNotFound => "user-not-found" end);
+                       match module_creds db cur p with
+                       | Some c => SList (Atom "module" :: show_creds c) | None => Atom "none" end;
+                       SList (Atom "main" :: show_creds (main_creds_after db cur p))])
+      | _, _, _, _, _, _, _ => None
+      end
   | _ => None
   end.
